@@ -24,8 +24,8 @@ ASSUMPTIONS = ["scope: every automat machine of the client (the thirteen mailbox
                "the cases that call dilate() - the Dilation machines); subchannels are not used by these programs",
                "after the application has observed closure it issues only get_*/close",
                "server `error` replies other than the consequences of a third participant are flagged"]
-FLOORS = {"quick": {"transitions": 60000, "closed_sides": 1000, "dilated_cases": 150, "prompt_race_cases": 50, "api_calls_from_inside_a_notification": 300, "closes_from_the_wordlist_callback": 10, "closes_from_a_reconnecting_status": 15, "api_calls_from_status_updates": 400, "closes_while_offline_before_the_words": 3},
-          "thorough": {"transitions": 3000000, "closed_sides": 50000, "dilated_cases": 8000, "prompt_race_cases": 2500, "api_calls_from_inside_a_notification": 15000, "closes_from_the_wordlist_callback": 500, "closes_from_a_reconnecting_status": 800, "api_calls_from_status_updates": 20000, "closes_while_offline_before_the_words": 100}}
+FLOORS = {"quick": {"transitions": 60000, "closed_sides": 1000, "dilated_cases": 150, "prompt_race_cases": 50, "api_calls_from_inside_a_notification": 300, "closes_from_the_wordlist_callback": 10, "closes_from_a_reconnecting_status": 15, "api_calls_from_status_updates": 400, "closes_while_offline_before_the_words": 3, "dilate_called_between_peer_dilate0_and_peer_version": 5},
+          "thorough": {"transitions": 3000000, "closed_sides": 50000, "dilated_cases": 8000, "prompt_race_cases": 2500, "api_calls_from_inside_a_notification": 15000, "closes_from_the_wordlist_callback": 500, "closes_from_a_reconnecting_status": 800, "api_calls_from_status_updates": 20000, "closes_while_offline_before_the_words": 100, "dilate_called_between_peer_dilate0_and_peer_version": 150}}
 DOCUMENTED_VERDICTS = ("happy", "LonelyError", "WrongPasswordError", "ServerError", "WelcomeError",
                        "ServerConnectionError")
 WORDS = ["purple", "sausages", "alpha", "beta", "zulu", "absurd"]
@@ -49,6 +49,10 @@ def cases(tier, seed, prep=None):
         out.append({"kind": "program", "seed": seed * 1000003 + 1495000 + i, "mode": "tcp", "third": False, "welcome_error": None,
                     "late_code": False, "mismatch": False, "late_welcome_error": False, "after_close": False,
                     "dilate": True, "dilate_race": True})
+    for i in range(30 if q else 900):
+        out.append({"kind": "program", "seed": seed * 1000003 + 1497000 + i, "mode": "tcp", "third": False, "welcome_error": None,
+                    "late_code": False, "mismatch": False, "late_welcome_error": False, "after_close": False,
+                    "dilate": True, "dilate_race": True, "version_last": True})
     for i in range(80 if q else 4000):
         race = ["close", "close+drop", "unwelcome", "drop+close"][i % 4]
         out.append({"kind": "program", "seed": seed * 1000003 + 1480000 + i, "mode": "tcp", "third": False, "welcome_error": None,
@@ -281,10 +285,13 @@ class Prog:
             acts.append(((name, "code2"), f))
         if self.dilate_budget > 0 and not closing:
             kinds = app.kinds()
+            peer_dilate_seen = self.dilate_gate == "peer-dilate" and "versions" not in kinds and any(
+                m.get("type") == "message" and str(m.get("phase", "")).startswith("dilate-") and m.get("side") != app.w._boss._side for (_, m) in app.inbound)
             if (self.dilate_gate == "now" or (self.dilate_gate == "code" and "code" in kinds) or
-                    (self.dilate_gate == "key" and "key" in kinds) or self.world.step > 120):
-                def f():
+                    (self.dilate_gate == "key" and "key" in kinds) or peer_dilate_seen or self.world.step > (120 if self.dilate_gate != "peer-dilate" else 400)):
+                def f(in_window=peer_dilate_seen):
                     self.dilate_budget -= 1
+                    self.dilated_in_window = bool(in_window)
                     pi = self.rng.choice([None, None, 5, 30, 2.5])       # (seconds; whole numbers are as legal as floats)
                     # (once the wormhole is closed - by the application or by itself after an error the application has
                     #  not been told about yet - the call is refused with WormholeClosed)
@@ -374,6 +381,38 @@ def run_case(spec):
     if drv.progs[0].method == "set":
         drv.shared["code"] = "%d-%s" % (rng.randint(1, 300), "-".join(rng.sample(WORDS, 2)))
     world.adversary = ReorderDup(world, p_dup=rng.choice([0.0, 0.2, 0.4]))
+    if spec.get("version_last"):
+        # the server hands B the peer's first dilation message before the peer's version message (any order is conformant),
+        # and B's application calls dilate() in between
+        pb_ = drv.progs[1]
+        pb_.dilate_gate = "peer-dilate"
+        pb_.dilate_budget = 1
+        drv.progs[0].dilate_gate = "now"
+        drv.progs[0].dilate_budget = 1
+        adv_ = world.adversary
+        base_actions_ = adv_.actions
+
+        def held_back(conn, kw):
+            return (conn._side == pb_.app.w._boss._side and kw.get("phase") == "version" and kw.get("side") != conn._side
+                    and pb_.dilate_budget > 0 and world.step < 380)
+
+        def actions_():
+            acts = []
+            for cid, lst in adv_.pool.items():
+                if any(not held_back(c_, kw_) for (c_, kw_, _) in lst):
+                    acts.append((("adv", cid), lambda cid=cid: release_(cid)))
+            return acts
+
+        def release_(cid):
+            lst = adv_.pool[cid]
+            idx = [i for i, (c_, kw_, _) in enumerate(lst) if not held_back(c_, kw_)]
+            i = rng.choice(idx)
+            conn, kw, seq = lst.pop(i)
+            adv_.released += 1
+            if i != 0:
+                adv_.out_of_order += 1
+            conn.real_send("message", **kw)
+        adv_.actions = actions_
     sch = Scheduler(world, drv, strategy=rng.choice(STRATS), chunking=rng.choice(["whole", "whole", "mixed"]),
                     p_advance=rng.choice([0.0, 0.0, 0.03]))
     sch.advance_ok = lambda: all(rc_of(p.app.w)._have_made_a_successful_connection for p in drv.progs)
@@ -511,7 +550,8 @@ def run_case(spec):
                          "never_closed_sides": sum(int(not p.app.closed) for p in drv.progs),
                          "drops": drv.drops, "third_clients": int(len(drv.progs) > 2),
                          "adv_dups": world.adversary.dups, "adv_out_of_order": world.adversary.out_of_order,
-                         "mode_" + spec.get("mode", "tcp"): 1, "prompt_race_cases": int(bool(spec.get("prompt_race"))), "closes_while_offline_before_the_words": sum(getattr(p, "offline_closes", 0) for p in drv.progs), "dilated_cases": int(bool(spec.get("dilate")))},
+                         "mode_" + spec.get("mode", "tcp"): 1, "prompt_race_cases": int(bool(spec.get("prompt_race"))), "closes_while_offline_before_the_words": sum(getattr(p, "offline_closes", 0) for p in drv.progs), "dilated_cases": int(bool(spec.get("dilate"))),
+                         "dilate_called_between_peer_dilate0_and_peer_version": int(any(getattr(p_, "dilated_in_window", False) for p_ in drv.progs))},
             "sets": {"triples": triples, "verdicts": [v for p in drv.progs for v in p.app.close_results]},
             "sample": {"spec": spec, "methods": {p.name: p.method for p in drv.progs},
                        "calls_A": drv.progs[0].app.calls[:25], "events_A": drv.progs[0].app.kinds(),
